@@ -74,6 +74,13 @@ class RenameMixin{V}:
         return type(expr)(expr.name + ("" if suffix is None else str(suffix))
                           + ("" if tag is None else "@" + str(tag)))
 
+    def map_foreign(self, expr{sig}):
+        """the documented hook for objects that are not pymbolic expressions: this one
+        spells floating-point literals as symbols"""
+        if isinstance(expr, float):
+            return Variable("flt_" + type(expr).__name__)
+        return Mapper.map_foreign(self, expr{sig})
+
 
 class NestRecMixin{V}:
     """a handler that feeds the result of one recursive call into another"""
@@ -106,6 +113,11 @@ class WeightMixin{V}:
     def map_nan(self, expr{sig}):
         return 100
 
+    def map_foreign(self, expr{sig}):
+        if type(expr).__module__ == "numpy":
+            return 50
+        return Mapper.map_foreign(self, expr{sig})
+
 
 class PrefixMixin{V}:
     def map_variable(self, expr{sig}):
@@ -114,6 +126,16 @@ class PrefixMixin{V}:
         if prefix is None or expr.name.startswith(str(prefix)):
             return {{expr}}
         return set()
+
+    def handle_unsupported_expression(self, expr{sig}):
+        """the documented hook for node types without a handler: nothing to collect"""
+        return set()
+
+
+class AUnitMixin{V}:
+    """reads a module-level constant of *this* module (c05_mappers_b has one of the same name)"""
+    def map_min(self, expr{sig}):
+        return Sum((IdentityMapper.map_min(self, expr{sig}), _ONE))
 
 
 class VisitMixin{V}:
@@ -134,10 +156,29 @@ class KeyMixin{V}:
         return {key}
 '''
 
+_MIXINS_B = '''
+class BUnitMixin{V}:
+    """reads a module-level constant of *this* module (c05_mappers has one of the same name,
+    equal but of another type)"""
+    def map_max(self, expr{sig}):
+        return Sum((IdentityMapper.map_max(self, expr{sig}), _ONE))
+'''
+
+_HEADER_B = '''"""GENERATED by dst/c05.py -- a second module that part of a mapper hierarchy lives in."""
+from pymbolic.mapper import IdentityMapper
+from pymbolic.primitives import Sum
+
+_ONE = 1.0
+'''
+
 _HEADER = '''"""GENERATED by dst/c05.py -- simulator-owned mapper subclasses for C05."""
 from immutabledict import immutabledict
 from pymbolic.mapper import (CachedIdentityMapper, IdentityMapper, CachedCombineMapper,
-    CombineMapper, CachedCollector, Collector, CachedWalkMapper, WalkMapper)
+    CombineMapper, CachedCollector, Collector, CachedWalkMapper, WalkMapper, Mapper)
+from pymbolic.primitives import Sum, Variable
+from c05_mappers_b import BUnitMixin0, BUnitMixinA, BUnitMixinK, BUnitMixinAK
+
+_ONE = 1
 from pymbolic.mapper.substitutor import CachedSubstitutionMapper, SubstitutionMapper
 from pymbolic.mapper.analysis import NodeCountMapper
 from pymbolic.mapper.flop_counter import FlopCounter, FlopCounterBase
@@ -151,6 +192,9 @@ from dst.c05 import walk_log as _walk_log
 # family -> (mixin, cached base, plain base)
 _FAM_BASES = {
     "ident": ("LitMixin{v}, RenameMixin", "CachedIdentityMapper", "IdentityMapper"),
+    # a hierarchy spread over two modules whose same-named globals are == but not the same
+    "twomod": ("BUnitMixin{v}, AUnitMixin{v}, LitMixin{v}, RenameMixin", "CachedIdentityMapper",
+               "IdentityMapper"),
     "combine": ("WeightMixin", "CachedCombineMapper", "CombineMapper"),
     "collect": ("PrefixMixin", "CachedCollector", "Collector"),
     "walk": ("VisitMixin", "CachedWalkMapper", "WalkMapper"),
@@ -224,13 +268,18 @@ class P_flop(FlopCounterBase):
 
 
 class P_walkset(WalkMapper):
-    """plain walk collecting the nodes it visits (reference for NodeCountMapper)"""
+    """plain walk collecting the nodes it visits and the nodes whose walk it completed
+    (reference for NodeCountMapper)"""
     def __init__(self):
         self.nodes = []
+        self.done = []
 
     def visit(self, expr, *args, **kwargs):
         self.nodes.append(expr)
         return True
+
+    def post_visit(self, expr, *args, **kwargs):
+        self.done.append(expr)
 
 
 class C_eval_0(CachedEvaluationMapper):
@@ -274,21 +323,26 @@ class P_diff_nc(NoCseCacheMixin, DifferentiationMapper):
     return "".join(out)
 
 
+def module_source_b():
+    return _HEADER_B + "".join(_MIXINS_B.format(V=v, **d) for v, d in _VARIANTS.items())
+
+
 def ensure_module():
     os.makedirs(BUILD_DIR, exist_ok=True)
-    src = module_source()
-    path = os.path.join(BUILD_DIR, "c05_mappers.py")
-    try:
-        with open(path) as f:
-            if f.read() == src:
-                return path
-    except FileNotFoundError:
-        pass
-    tmp = path + f".tmp{os.getpid()}"
-    with open(tmp, "w") as f:
-        f.write(src)
-    os.replace(tmp, path)
-    return path
+    for fname, src in (("c05_mappers_b.py", module_source_b()),
+                       ("c05_mappers.py", module_source())):
+        path = os.path.join(BUILD_DIR, fname)
+        try:
+            with open(path) as f:
+                if f.read() == src:
+                    continue
+        except FileNotFoundError:
+            pass
+        tmp = path + f".tmp{os.getpid()}"
+        with open(tmp, "w") as f:
+            f.write(src)
+        os.replace(tmp, path)
+    return os.path.join(BUILD_DIR, "c05_mappers.py")
 
 
 def template_init(job):
@@ -318,11 +372,12 @@ ARITH = ["Variable", "Sum", "Product", "Quotient", "FloorDiv", "Remainder", "Pow
          "Comparison", "If", "Min", "Max", "CommonSubexpression", "LogicalAnd", "LogicalNot"]
 
 FAMS_BROAD = ["ident", "subst", "collect", "walk", "dep", "count", "combine", "plainopt",
-              "entry_subst", "hook"]
+              "entry_subst", "hook", "twomod"]
 FAMS_ARITH = ["eval", "csemix_eval", "flop", "ident", "combine", "dep", "count", "collect",
               "csemix_dep", "csemix_diff", "entry_subst", "entry_eval"]
-REWRITABLE = {"ident", "combine", "collect", "walk", "subst", "count", "flop", "plainopt"}
-EXTRAS_FAMS = {"ident", "combine", "collect", "walk", "dep", "plainopt", "csemix_dep", "hook",
+REWRITABLE = {"ident", "combine", "collect", "walk", "subst", "count", "flop", "plainopt",
+              "twomod"}
+EXTRAS_FAMS = {"ident", "twomod", "combine", "collect", "walk", "dep", "plainopt", "csemix_dep", "hook",
                "entry_subst", "entry_eval"}
 
 
@@ -370,7 +425,7 @@ def _gen_extras(r, fam, variant):
     pos_ok = variant in ("0", "K")
     kw_ok = variant in ("0", "A")
     if pos_ok and r.random() < 0.6:
-        if fam in ("ident", "plainopt", "hook"):
+        if fam in ("ident", "plainopt", "hook", "twomod"):
             if r.random() < 0.12:
                 # a positional extra that happens to look like a keyword item
                 args.append(["t", [["s", "tag"], ["s", r.choice(["p", "q"])]]])
@@ -459,10 +514,15 @@ def generate(seed, tier):
     g = G(r, classes=classes, max_depth=max_depth, pool=pool_names,
           idents=["x", "y", "z", "xa"], p_ref=0.3, p_fresh=0.2,
           leaf_classes=("Variable", "Variable", "Variable", "SubVar"), **ck)
-    g.extra_fields = {"SubVar": ["s"], "TagSum": ["E"], "TagProduct": ["E"]}
+    g.extra_fields = {"SubVar": ["s"], "TagSum": ["E"], "TagProduct": ["E"], "Opaque": ["s"]}
     g.classes = list(g.classes) + ["TagSum", "TagProduct"]
     if g.weights:
         g.weights = list(g.weights) + [1, 1]
+    if mode == "strict" and r.random() < 0.08:
+        # a node type without a handler anywhere: every walk that meets it fails half-way
+        g.classes.append("Opaque")
+        if g.weights:
+            g.weights.append(1)
     g.allow_short = profile == "broad"
     for k in range(npool):
         name = f"e{k}"
@@ -590,7 +650,7 @@ def generate(seed, tier):
         fam = ins["family"]
         variant = ins["variant"]
         x = r.random()
-        if x < 0.04 and mode == "strict" and fam in ("ident", "hook", "plainopt"):
+        if x < 0.04 and mode == "strict" and fam in ("ident", "hook", "plainopt", "twomod"):
             # user literal nodes of two classes that compare equal across the classes
             et = r.choice([["n", "IntLit", [["i", 7]]], ["n", "FloatLit", [["f", "7.0"]]]])
         elif x < 0.12 and mode == "strict":
@@ -652,6 +712,8 @@ class _Inst:
         self.history = []       # (expr canon, argkey) of earlier calls
         self.seen_sub = []      # canon forms of all sub-expressions handed to it
         self.count_model = set()
+        self.count_upper = set()
+        self.async_hits = 0
         self.model = None
         self.inline_rec_no_cache = False
         self.faulted = False
@@ -733,6 +795,11 @@ def execute(scenario, open_sigs):
     class TagProduct(p.Product):
         mapper_method = "map_tagged"
 
+    @p.expr_dataclass()
+    class Opaque(p.Expression):
+        """a node type no stock mapper has a handler for"""
+        name: str
+
     class _Lit(p.Expression):
         """legacy nodes whose equality backend is overridden so that IntLit(7) == FloatLit(7.0)
         (the user's choice); they are still two node types"""
@@ -757,7 +824,7 @@ def execute(scenario, open_sigs):
         mapper_method = "map_float_lit"
 
     B = spec.Builder({"SubVar": SubVar, "TagSum": TagSum, "TagProduct": TagProduct,
-                      "IntLit": IntLit, "FloatLit": FloatLit})
+                      "Opaque": Opaque, "IntLit": IntLit, "FloatLit": FloatLit})
     obs = HandlerObserver()
     events, known, probes, faults, states = [], [], {}, {}, set()
     insts = {}
@@ -1018,6 +1085,10 @@ def execute(scenario, open_sigs):
                               c.handler == "map_common_subexpression_uncached")}
             obs.release_frames(fmark)
 
+            if fam == "count":
+                st.count_upper.update(jkey(c) for c in sub)
+                st.count_upper.update(jkey(canon(x, obs.memo)) for x in fresh_obj.nodes)
+
             # ---- the long-lived instance, possibly with a fault
             st.sim.disarm()
             fired_before = st.sim.fired
@@ -1068,6 +1139,8 @@ def execute(scenario, open_sigs):
                 faults[fkind or got[0]] = faults.get(fkind or got[0], 0) + 1
                 any_fault_fired = True
                 st.faulted = True
+                if got[0] == "interrupt":
+                    st.async_hits += 1
 
             # ---- OnceModel bookkeeping
             comps = [c for c in obs.since(mark) if c.inst == st.label]
@@ -1130,13 +1203,14 @@ def execute(scenario, open_sigs):
                         ok = False
                         detail = "set of visited nodes differs from the plain walk"
             elif fam == "count":
-                if got[0] != "ok" or want[0] != "ok":
-                    if got[0] != want[0]:
-                        ok = False
-                        detail = "node count outcome differs"
+                # the nodes whose walk the plain walker completed (all of them, or on a walk
+                # that fails the ones before the failure) are what the instance has counted
+                for x in fresh_obj.done:
+                    st.count_model.add(jkey(canon(x, obs.memo)))
+                if got[0] != want[0] or (got[0] != "ok" and type(got[1]) is not type(want[1])):
+                    ok = False
+                    detail = "node count outcome differs"
                 else:
-                    for x in fresh_obj.nodes:
-                        st.count_model.add(jkey(canon(x, obs.memo)))
                     if st.obj.count != len(st.count_model):
                         if mode == "nv" and mgot is not None and mgot[0] == "ok" \
                                 and st.obj.count == len(st.model.nodes) and kf(
@@ -1144,7 +1218,13 @@ def execute(scenario, open_sigs):
                                 "cache keys distinguish constant types at top level only: "
                                 "x+4 and x+4.0 share one entry (D1)"):
                             pass
-                        elif fault_mode == "async" or st.faulted:
+                        elif (fault_mode == "async" or st.faulted) and (
+                                len(st.count_model) <= st.obj.count
+                                <= len(st.count_upper) + st.async_hits):
+                            # after an injected fault the exact set of completed nodes is not
+                            # known; it lies between the completed walks and everything seen
+                            # (an asynchronous interrupt may land between a node being counted
+                            # and its key being stored: one recount per such interrupt)
                             pass
                         elif st.inline_rec_no_cache and st.obj.count > len(st.count_model) \
                                 and kf("optimizer-inline-rec-bypasses-cache",
